@@ -93,7 +93,14 @@ class SortableDict(col.MutableMapping):
                 if (pos_key is not None) and (self.index(key) < index):
                     # Removing the key shifts pos_key one place to the left.
                     index -= 1
-                del self[key]
+                # Move the key in a copy of the order first: an index that
+                # list.insert() refuses must not cost us the key.
+                order = list(self._order)
+                order.remove(key)
+                order.insert(index, key)
+                self._order[:] = order
+                self._values[key] = value
+                return
             else:
                 # We are updating
                 self._values[key] = value
